@@ -1,0 +1,86 @@
+//! verification hooks (add-only, compiled only with `--cfg kahflane_turdb_verif`):
+//! read-only views of the physical state the undo log works on -- the table B-tree as seen from
+//! the header's root page, the header row counter, and the raw entries of an index B-tree.
+use super::Database;
+use crate::btree::BTreeReader;
+use crate::records::RecordView;
+use crate::storage::{IndexFileHeader, TableFileHeader, DEFAULT_SCHEMA};
+use crate::types::{create_record_schema, OwnedValue};
+use eyre::Result;
+
+/// (root page in the header, header row_count, entries (row key, header flags, header txn id, row))
+pub type VerifTableState = (u32, u64, Vec<(Vec<u8>, u8, u64, Vec<OwnedValue>)>);
+
+impl Database {
+    pub fn verif_table_state(&self, table: &str) -> Result<VerifTableState> {
+        self.ensure_file_manager()?;
+        let columns = {
+            let catalog_guard = self.shared.catalog.read();
+            let catalog = catalog_guard.as_ref().unwrap();
+            let table_def = catalog.resolve_table_in_schema(None, table)?;
+            table_def.columns().to_vec()
+        };
+        let schema = create_record_schema(&columns);
+        let mut file_manager_guard = self.shared.file_manager.write();
+        let file_manager = file_manager_guard.as_mut().unwrap();
+        let storage_arc = file_manager.table_data(DEFAULT_SCHEMA, table)?;
+        let storage = storage_arc.read();
+        let (root, count) = {
+            let page = storage.page(0)?;
+            let header = TableFileHeader::from_bytes(page)?;
+            (header.root_page(), header.row_count())
+        };
+        let reader = BTreeReader::new(&storage, root)?;
+        let mut cursor = reader.cursor_first()?;
+        let mut out = Vec::new();
+        if cursor.valid() {
+            loop {
+                let key = cursor.key()?.to_vec();
+                let raw = cursor.value()?;
+                let (flags, txn) = if raw.len() >= 17 {
+                    (raw[0], u64::from_be_bytes(raw[1..9].try_into().unwrap()))
+                } else {
+                    (0, 0)
+                };
+                let user = crate::database::dml::mvcc_helpers::get_user_data(raw);
+                let row = match RecordView::new(user, &schema) {
+                    Ok(rv) => OwnedValue::extract_row_from_record(&rv, &columns).unwrap_or_default(),
+                    Err(_) => vec![],
+                };
+                out.push((key, flags, txn, row));
+                if !cursor.advance()? {
+                    break;
+                }
+            }
+        }
+        Ok((root, count, out))
+    }
+
+    /// raw (key, value) entries of an index B-tree, from the root recorded in its header
+    pub fn verif_index_entries(&self, table: &str, index: &str) -> Result<Vec<(Vec<u8>, Vec<u8>)>> {
+        self.ensure_file_manager()?;
+        let mut file_manager_guard = self.shared.file_manager.write();
+        let file_manager = file_manager_guard.as_mut().unwrap();
+        if !file_manager.index_exists(DEFAULT_SCHEMA, table, index) {
+            eyre::bail!("index {index} of {table} does not exist");
+        }
+        let storage_arc = file_manager.index_data(DEFAULT_SCHEMA, table, index)?;
+        let storage = storage_arc.read();
+        let root = {
+            let page0 = storage.page(0)?;
+            IndexFileHeader::from_bytes(page0)?.root_page()
+        };
+        let reader = BTreeReader::new(&storage, root)?;
+        let mut cursor = reader.cursor_first()?;
+        let mut out = Vec::new();
+        if cursor.valid() {
+            loop {
+                out.push((cursor.key()?.to_vec(), cursor.value()?.to_vec()));
+                if !cursor.advance()? {
+                    break;
+                }
+            }
+        }
+        Ok(out)
+    }
+}
